@@ -188,6 +188,22 @@ type encTagMapNamed map[encAttr]interface{}
 
 func (t encTagMapNamed) Tags() ([]encrypt.PointerTag, error) { return encTagMap(nil).Tags() }
 
+// encTagMapKept is a Taggable map whose Tags() hands out ONE table the type keeps (a package-level table, as
+// generated code has it) instead of building a fresh slice per call: the table is the payload type's.
+type encTagMapKept map[string]interface{}
+
+func freshKeptTags() []encrypt.PointerTag {
+	return []encrypt.PointerTag{
+		{Pointer: "/display", Classification: encrypt.PublicClassification},
+		{Pointer: "/token", Classification: encrypt.SecretClassification, Filter: encrypt.RedactOperation},
+		{Pointer: "/mail", Classification: encrypt.SensitiveClassification},
+	}
+}
+
+var keptTags = freshKeptTags()
+
+func (t encTagMapKept) Tags() ([]encrypt.PointerTag, error) { return keptTags, nil }
+
 // encTagMapAny is a Taggable map with interface keys (what YAML and CBOR decoders produce): its tags
 // name string keys; keys of other types that merely print like a tagged key are different, untagged entries.
 type encTagMapAny map[interface{}]interface{}
@@ -1034,6 +1050,21 @@ func (g *encGen) payload(kind int, depth int) (interface{}, string) {
 		return g.recordPublic(), "*struct(record,public)"
 	case 21:
 		return g.recordProtected(), "*struct(record,protected)"
+	case 32:
+		m := encTagMapKept{}
+		if g.want() {
+			m["display"] = g.canary("keep", "keptmap{display}")
+		}
+		if g.want() {
+			m["token"] = g.canary(g.treatFor("secret,redact", true), "keptmap{token}")
+		}
+		if g.want() {
+			m["mail"] = g.canary(g.treatFor("sensitive", true), "keptmap{mail}")
+		}
+		if g.want() {
+			m["note"] = g.canary("redact", "keptmap{note}")
+		}
+		return m, "taggable-map(tag-table-kept-by-the-type)"
 	case 31:
 		m := encTagMapAny{}
 		if g.want() {
@@ -1097,8 +1128,10 @@ func newAead(key []byte, id string) *aead.Wrapper {
 	return w
 }
 
+// keyBytes: key number n; the sizes cycle through AES-128, AES-192 and AES-256 keys (what is derived
+// from a key is derived from ITS bytes, however many there are)
 func keyBytes(n int) []byte {
-	k := make([]byte, 32)
+	k := make([]byte, []int{32, 16, 24}[n%3])
 	for i := range k {
 		k[i] = byte(n*31 + i*7 + 1)
 	}
@@ -1344,6 +1377,7 @@ func flattenStrings(v interface{}) string {
 var allOps = []encrypt.FilterOperation{encrypt.NoOperation, encrypt.RedactOperation, encrypt.EncryptOperation, encrypt.HmacSha256Operation}
 
 func runEncrypt(rc *RunCtx, prop string) {
+	keptTags = freshKeptTags() // (state of the payload TYPE: every run starts with the table as written)
 	tp := rc.Tape
 	sim := rc.Sim
 	rc.UnorderedDigest = true
@@ -1541,7 +1575,7 @@ func runEncrypt(rc *RunCtx, prop string) {
 			d := &drawRec{tape: tp}
 			fill := []int{15, 40, 80}[tp.Choose(3, "fill")]
 			g := &encGen{d: d, exp: map[string]*leafExp{}, overrides: overrides, fill: fill, withIgnored: withIgnored}
-			kind := tp.Choose(32, "kind")
+			kind := tp.Choose(33, "kind")
 			depth := tp.Choose(3, "depth")
 			var payload interface{}
 			var top string
@@ -1614,6 +1648,10 @@ func runEncrypt(rc *RunCtx, prop string) {
 				firedBefore = fw.fired
 			}
 			out, err := f.Process(ctx, ev)
+			if !reflect.DeepEqual(keptTags, freshKeptTags()) {
+				rc.Failf(prop+".payload-modified", "tag-table", "the tag table a Taggable payload type keeps and hands out from Tags() was rewritten by Process: it reads %v now", keptTags)
+				keptTags = freshKeptTags()
+			}
 			if err != nil {
 				rc.DigestUnstable = true // the walk stopped at an order-dependent point
 			}
@@ -2306,5 +2344,81 @@ func runEncryptRotatePartial(rc *RunCtx) {
 	}
 	if !okAny {
 		rc.Failf("C16.stale-key", "after-concurrent-partial-rotations", "after both rotations returned, a new event is not protected under the configuration that either order of the two rotations leaves in force (a component fell back to an earlier value)")
+	}
+}
+
+// ---- C12: the encrypt filter inside a Broker ---------------------------------------------------
+//
+// Events that the filter refuses (no wrapper for an operation a field's own tag asks for, a failing
+// wrapper), events it filters, rotation payloads sent through the Broker and direct Rotate calls, in any
+// order and from several senders: every call returns, whatever the earlier ones ran into.
+
+type encOpTagged struct {
+	Name  string `class:"public"`
+	Token string `class:"secret,encrypt"`
+	Mail  string `class:"sensitive"`
+	Note  string
+}
+
+func init() {
+	register(&Scenario{Prop: "C12", Name: "encrypt-in-broker", Run: runEncryptInBroker})
+}
+
+func runEncryptInBroker(rc *RunCtx) {
+	tp := rc.Tape
+	sim := rc.Sim
+	simrt.Probe("reentry.encrypt-in-broker")
+	b, _ := el.NewBroker()
+	f := &encrypt.Filter{}
+	switch tp.Choose(4, "overrides") {
+	case 1:
+		f.FilterOperationOverrides = map[encrypt.DataClassification]encrypt.FilterOperation{encrypt.SensitiveClassification: encrypt.RedactOperation}
+	case 2:
+		f.FilterOperationOverrides = map[encrypt.DataClassification]encrypt.FilterOperation{encrypt.SensitiveClassification: encrypt.RedactOperation, encrypt.SecretClassification: encrypt.RedactOperation}
+	case 3:
+		f.FilterOperationOverrides = map[encrypt.DataClassification]encrypt.FilterOperation{encrypt.SensitiveClassification: encrypt.HmacSha256Operation}
+	}
+	withWrapper := tp.Choose(2, "wrapper") == 0
+	if withWrapper {
+		f.Wrapper = newAead(keyBytes(1), "k1")
+	}
+	b.RegisterNode("enc", f)
+	b.RegisterNode("json", &el.JSONFormatter{})
+	b.RegisterNode("k", &formatReader{})
+	b.RegisterPipeline(el.Pipeline{PipelineID: "p", EventType: "t", NodeIDs: []el.NodeID{"enc", "json", "k"}})
+	nSenders := 1 + tp.Choose(2, "nsenders")
+	total, returned := 0, 0
+	var hist []string
+	for s := 0; s < nSenders; s++ {
+		n := 1 + tp.Choose(5, "ncalls")
+		kinds := make([]int, n)
+		for i := range kinds {
+			kinds[i] = tp.Choose(4, "call")
+			hist = append(hist, fmt.Sprintf("sender%d: %s", s, []string{"event", "event", "rotation-event", "Rotate()"}[kinds[i]]))
+		}
+		total += n
+		sim.Spawn(fmt.Sprintf("sender%d", s), func() {
+			for i, k := range kinds {
+				simrt.Yield("sender:step")
+				switch k {
+				case 2:
+					b.Send(context.Background(), "t", &encRotate{w: newAead(keyBytes(10+i), fmt.Sprintf("rot-%d", i)), salt: []byte("s"), info: []byte("i")})
+				case 3:
+					f.Rotate(encrypt.WithWrapper(newAead(keyBytes(20+i), fmt.Sprintf("direct-%d", i))))
+				default:
+					b.Send(context.Background(), "t", &encOpTagged{Name: "n", Token: "tok", Mail: "m@example.com", Note: "free text"})
+				}
+				returned++
+			}
+		})
+	}
+	rc.Desc = map[string]interface{}{"wrapper_configured": withWrapper, "history": hist}
+	sim.Run(nil)
+	rc.NonTrivial = true
+	if len(sim.Panics) > 0 {
+		return
+	}
+	if sim.Stuck || returned != total {
+		rc.Failf("C12.stuck", stuckClass(sim), "%d of %d calls returned although every node returned:\n  %s\n%s", returned, total, strings.Join(sim.StuckInfo, "\n  "), sim.Deadlock)
 	}
 }
